@@ -106,6 +106,20 @@ FAULTS = {
     "timeout": None,
     "compile_error": None,
 }
+# where the execution limit strikes: top level, below calls, inside try blocks (a timeout is not catchable: every frame up to the
+# outermost one has to be unwound whatever handlers are active), inside overloads, callbacks, generators and displays
+TIMEOUT_SHAPES = [
+    "loop\n  x = 1\n",
+    "f = ||\n  loop\n    x = 1\nf()\n",
+    "try\n  loop\n    x = 1\ncatch _\n  print 'caught'\n",
+    "spin = ||\n  try\n    loop\n      x = 1\n  catch _\n    'caught'\nouter = || spin()\nouter()\n",
+    "spin = ||\n  try\n    loop\n      x = 1\n  catch _\n    'caught'\n  finally\n    y = 1\nouter = ||\n  try\n    spin()\n  catch _\n    'c2'\nouter()\n",
+    "spin = |n|\n  try\n    if n > 0 then spin(n - 1)\n    loop\n      x = 1\n  catch _\n    'caught'\nspin 5\n",
+    "o =\n  @+: |other|\n    try\n      loop\n        x = 1\n    catch _\n      0\nq = o + 1\n",
+    "cb = |v|\n  try\n    loop\n      x = 1\n  catch _\n    0\nq = (1..3).each(cb).to_list()\n",
+    "g = ||\n  try\n    loop\n      x = 1\n    yield 1\n  catch _\n    yield 2\nq = g().to_list()\n",
+    "d =\n  @display: ||\n    try\n      loop\n        x = 1\n    catch _\n      'd'\nq = '{d}'\n",
+]
 MODULES = {
     "bad_top.koto": "export x = 1\nthrow 'bad_top fails'\n",
     "bad_test.koto": "export x = 1\n@test t = || throw 'bad_test fails'\n@main = || null\n",
@@ -128,7 +142,7 @@ def gen_history(rng, length):
         elif r < 0.65:
             kind = rng.choice(sorted(FAULTS))
             if kind == "timeout":
-                src = effects + "loop\n  x = 1\n"
+                src = effects + rng.choice(TIMEOUT_SHAPES)
                 ops.append({"op": "inst_run", "src": src, "kind": "fail:timeout", "expect": "timeout"})
             elif kind == "compile_error":
                 src = effects + "y = = 1\n"
